@@ -496,6 +496,17 @@ def generate():
         body += "def removeRecomputesMin : Bool := true\n\n"
         levf = prep(find_func(logger, "level"))
         t = _neg_check(levf, _param(levf, 2), "level")
+        # every registered handler learns the level (`update_format`) unconditionally, before the level is published;
+        # the shape "only if the colour changed" is refuted by C01.stale_precolorized_formats_refuted
+        LNAME = _param(levf, 1)
+        try:
+            find_subseq(levf, ["for M_H in self._core.handlers.values():\n    M_H.update_format(%s)" % LNAME,
+                               "self._core.levels_lookup[%s] = E_T" % LNAME], what="level")
+            find_subseq(levf, ["for M_H in self._core.handlers.values():\n    M_H.update_format(%s)" % LNAME,
+                               "self._core.levels[%s] = E_L" % LNAME], what="level")
+        except Unsupported as e:
+            raise Unsupported("level: the handlers are not told about the level (update_format) unconditionally before it is "
+                              "published - refuted shape, see C01.stale_precolorized_formats_refuted; " + str(e))
         body += "/-- `level`: `%s` → ValueError -/\ndef levelRejectsNo (no : Int) : Bool := %s\n\n" % (
             ast.unparse(t), _tr_bool(t, {_param(levf, 2): ("no", "int")}))
 
@@ -550,6 +561,16 @@ def generate():
             raise Unsupported("Handler.emit: filter gate shape")
         if k[0].lineno > fg[0].lineno:
             raise Unsupported("Handler.emit: filter consulted before the threshold")
+
+        hinit = prep(find_func(find_class(htree, "Handler"), "__init__"))
+        find_subseq(hinit, ["for M_N in self._levels_ansi_codes:\n    self.update_format(M_N)"], what="Handler.__init__")
+        upd = prep(find_func(find_class(htree, "Handler"), "update_format"))
+        UP = _param(upd, 1)
+        find_subseq(upd, ["if not self._colorize or self._is_formatter_dynamic:\n    return",
+                          "self._precolorized_formats[%s] = self._formatter.colorize(self._levels_ansi_codes[%s])" % (UP, UP)],
+                    what="Handler.update_format")
+        if not any(ast.unparse(n) == "self._precolorized_formats[%s]" % _param(emitf, 2) for n in ast.walk(emitf)):
+            raise Unsupported("Handler.emit no longer reads self._precolorized_formats[level_id]")
 
         # ---------------------------------------------------------------- _filters.py
         ftree, _ = parse_module("_filters.py")
